@@ -62,6 +62,16 @@ def pattern_texts(rnd, npools):
         for n in (3, 4):
             for combo in itertools.product(pool, repeat=n):
                 out.append(sep.join(combo))
+        # one vector embedded at a field boundary of another one's text (glued), with and without a free-standing copy of it elsewhere
+        for x in pool:
+            for y in pool:
+                if x == y:
+                    continue
+                cuts = [i for i, ch in enumerate(y) if ch == "/"]
+                for cut in rnd.sample(cuts, min(3, len(cuts))):
+                    emb = y[:cut + 1] + x + y[cut + 1:]
+                    emb2 = y[:cut] + x + y[cut:]
+                    out += [emb, x + sep + emb, emb + sep + x, emb2, x + sep + emb2, y + sep + x + sep + emb]
     return out
 
 
